@@ -453,7 +453,7 @@ where
             ctx.violation(format!("{}|size_hint-wrong|large-buffer", name), || case("fresh iterator"), || format!("size_hint = {:?} but {} items remain", sh, count));
             return;
         }
-        let mut positions: Vec<usize> = vec![0, 1, count / 3, count / 2, count.saturating_sub(3), count.saturating_sub(2), count.saturating_sub(1), count, count + 1];
+        let mut positions: Vec<usize> = vec![0, 1, 255, 256, 2047, 2048, 2049, 4096, 65_535, 65_536, count / 3, count / 2, count.saturating_sub(3), count.saturating_sub(2), count.saturating_sub(1), count, count + 1];
         for _ in 0..6 {
             positions.push(rng.usizer(0, count + 2));
         }
@@ -482,6 +482,26 @@ where
             if g2 != w2 {
                 ctx.violation(format!("{}|position-after-next-nth|large-buffer", name), || case(&format!("nth({}), next()", k)), || format!("returned {:x?}, expected {:x?}", g2, w2));
                 return;
+            }
+            // a long skip from a partly consumed iterator: 1..=3 x next(), then nth(k) (seeded `C09-15`:
+            // skips of 2048 items and more re-base the slice and forget the items already consumed)
+            for warm in 1..=3usize {
+                let mut it = RawDataSlice::<R, O>::new(&data).into_iter();
+                for _ in 0..warm {
+                    it.next();
+                }
+                let g: Option<u32> = it.nth(k).map(|r| r.into_inner().into());
+                let w = if warm <= count { model_load(&data, bpp, alt, warm + k) } else { None };
+                if g != w {
+                    ctx.violation(format!("{}|position-after-next-nth|large-buffer", name), || case(&format!("{} x next(), then nth({})", warm, k)), || format!("returned {:x?}, expected {:x?}", g, w));
+                    return;
+                }
+                let g2: Option<u32> = it.next().map(|r| r.into_inner().into());
+                let w2 = if w.is_some() { model_load(&data, bpp, alt, warm + k + 1) } else { None };
+                if g2 != w2 {
+                    ctx.violation(format!("{}|position-after-next-nth|large-buffer", name), || case(&format!("{} x next(), nth({}), next()", warm, k)), || format!("returned {:x?}, expected {:x?}", g2, w2));
+                    return;
+                }
             }
             // the tail seen through count() and last() (bounded: at most 4096 items from the end)
             if k < count && count - k <= 4096 {
